@@ -514,6 +514,23 @@ class Engine:
                         return NotImplemented
         if len(found) != 1:
             return NotImplemented
+        # only a field that nothing but the constructor ever writes: a field some method updates carries state of the
+        # object's history, which the constructor's expression says nothing about
+        for cn in mro:
+            c = self.prog.classes.get(cn)
+            if c is None:
+                continue
+            meths = list(c.methods.values()) + list(c.classmethods.values()) + \
+                [f_ for pr in c.properties.values() for f_ in pr.values()]
+            for f_ in meths:
+                if f_.node.name in ("__init__", "__post_init__"):
+                    continue
+                for n in ast.walk(f_.node):
+                    if isinstance(n, ast.Attribute) and isinstance(n.ctx, (ast.Store, ast.Del)) and n.attr == name:
+                        return NotImplemented
+                    if isinstance(n, ast.Call) and ast.unparse(n.func) in ("object.__setattr__", "setattr", "delattr", "object.__delattr__") \
+                            and len(n.args) >= 2 and isinstance(n.args[1], ast.Constant) and n.args[1].value == name:
+                        return NotImplemented
         rhs, m = found[0]
         flds = self.st.heap[obj.oid]
         for n in ast.walk(rhs):
